@@ -48,7 +48,26 @@ class Unsupported(Exception):
 # ----------------------------------------------------------------------------
 # text -> parse tree
 
-def helper_text(root):
+# specification of each known helper: (value of the result as a z3 term of num, quot)
+SPECS = {
+    "exo_floor_div": ("floor(num / quot)", lambda N, Q: N / Q, lambda n, q: n // q),
+    "exo_floor_mod": ("num - quot * floor(num / quot)", lambda N, Q: N - Q * (N / Q), lambda n, q: n % q),
+}
+
+
+def helper_names(root):
+    path = os.path.join(root, FC)
+    tree = ast.parse(open(path).read(), path)
+    for node in tree.body:
+        if isinstance(node, ast.Assign) and any(isinstance(t, ast.Name) and t.id == "_static_helpers"
+                                                for t in node.targets):
+            if not isinstance(node.value, ast.Dict):
+                raise Unsupported("_static_helpers is not a dict display")
+            return [k.value for k in node.value.keys if isinstance(k, ast.Constant)]
+    raise Unsupported("_static_helpers not found")
+
+
+def helper_text(root, HELPER=HELPER):
     path = os.path.join(root, FC)
     tree = ast.parse(open(path).read(), path)
     for node in tree.body:
@@ -403,20 +422,20 @@ available and with pyvc's concrete C evaluator.  exit 1 = wrong value or UB."""
 import sys
 sys.path.insert(0, {verif!r})
 from contracts.c08_floor_div import replay
-sys.exit(replay({num}, {quot}, {what!r}))
+sys.exit(replay({num}, {quot}, {what!r}, {helper!r}))
 '''
 
 
-def replay(num, quot, what=""):
+def replay(num, quot, what="", helper=HELPER):
     from pyvc.run import repo_root
-    text = helper_text(repo_root())
+    text = helper_text(repo_root(), helper)
     fn = parse_helper(text)
-    want = num // quot if quot != 0 else None
+    want = SPECS[helper][2](num, quot) if quot != 0 else None
     val, ub = c_eval(fn, num, quot)
     print(f"obligation : {what}")
     print(f"helper text:{text}")
     print(f"input      : num={num} quot={quot}   (envelope: {ENVELOPE})")
-    print(f"evaluator  : result={val} undefined-behaviour={ub}   floor(num/quot)={want}")
+    print(f"evaluator  : result={val} undefined-behaviour={ub}   specified ({SPECS[helper][0]})={want}")
     bad = bool(ub) or val != want
     cc = _cc_run(text, fn["name"], num, quot)
     if cc is not None:
@@ -485,7 +504,27 @@ def run(tier="quick", seed=0):
         " (the divisor is a positive literal by the front end's typecheck rule; index values are assumed to fit)",
     ], samples=[], violations=[], undecided=[], bounded=[], clauses={}, solver_time_s=0.0)
     try:
-        text = helper_text(repo_root())
+        names = helper_names(repo_root())
+    except Unsupported as u:
+        res["undecided"].append(f"{TGT}: unsupported: {u}")
+        return res
+    res["functions"] = []
+    for hname in names:
+        tgt = f"{FC}::_static_helpers[{hname!r}]"
+        res["functions"].append(tgt)
+        if hname not in SPECS:
+            res["undecided"].append(f"{tgt}: helper without a specification in contracts/c08_floor_div.py")
+            continue
+        _run_helper(res, hname, tgt, tier, tmo, verif)
+    res["solver_time_s"] = round(res["solver_time_s"], 3)
+    return res
+
+
+def _run_helper(res, HELPER, TGT, tier, tmo, verif):
+    from pyvc.run import repo_root
+    spec_txt, spec_z3, spec_py = SPECS[HELPER]
+    try:
+        text = helper_text(repo_root(), HELPER)
         fn = parse_helper(text)
         if len(fn["params"]) != 2:
             raise Unsupported("helper does not take (num, quot)")
@@ -506,10 +545,11 @@ def run(tier="quick", seed=0):
             n, q = _model_inputs(m, num, quot, is_bv)
             _, ub = c_eval(fn, n, q)
             val, _ = c_eval(fn, n, q)
-            confirmed = bool(ub) or val != n // q
+            confirmed = bool(ub) or val != spec_py(n, q)
             res["clauses"][key] = "refuted"
             res["violations"].append(dict(obligation=key, confirmed=confirmed,
-                                          replay_script=REPLAY.format(verif=verif, num=n, quot=q, what=name)))
+                                          replay_script=REPLAY.format(verif=verif, num=n, quot=q, what=name,
+                                                                      helper=HELPER)))
         else:
             res["clauses"][key] = "unknown"
             res["undecided"].append(f"{key}: solver returned unknown")
@@ -533,8 +573,8 @@ def run(tier="quick", seed=0):
     for guard, ok, what in EI.sites:
         r, m, dt = _prove([preI, guard], ok, tmo)
         record(f"[integers] intermediate value fits int: {what}", r, m, dt, N, Q, False)
-    r, m, dt = _prove([preI], out == N / Q, tmo)          # z3 div with Q > 0 is floor division
-    record("result == floor(num / quot)", r, m, dt, N, Q, False)
+    r, m, dt = _prove([preI], out == spec_z3(N, Q), tmo)   # z3 div/mod with Q > 0 are floor div/mod
+    record(f"result == {spec_txt}", r, m, dt, N, Q, False)
 
     # bounded: the value clause stated directly on bit-vectors, small widths
     widths = (8, 10, 12, 14) if tier == "thorough" else (8, 10, 12)
@@ -550,7 +590,10 @@ def run(tier="quick", seed=0):
             continue                                # e.g. a literal that does not fit w bits
         pre_w = envelope(b, n_, q_, shift=w - 2)
         ext = lambda x: z3.SignExt(w, x)
-        spec = z3.And(ext(out_w) * ext(q_) <= ext(n_), ext(n_) < ext(out_w) * ext(q_) + ext(q_))
+        if HELPER == "exo_floor_div":
+            spec = z3.And(ext(out_w) * ext(q_) <= ext(n_), ext(n_) < ext(out_w) * ext(q_) + ext(q_))
+        else:
+            spec = z3.And(ext(out_w) >= 0, ext(out_w) < ext(q_), z3.SRem(ext(n_) - ext(out_w), ext(q_)) == 0)
         safe = z3.And([z3.Implies(g_, c_) for g_, c_, _ in Ew.sites] or [z3.BoolVal(True)])
         r, m, dt = _prove([pre_w], z3.And(spec, safe), tmo)
         res["solver_time_s"] += dt
@@ -565,7 +608,6 @@ def run(tier="quick", seed=0):
     res["bounded"].append(dict(target=TGT + " [value clause on bit-vectors]", cases=len(ok_w),
                                bound=f"int widths {list(widths)} with the envelope scaled to 2^(w-2); "
                                      f"passed at {ok_w}, failed at {[b[0] for b in bad_w]}"))
-    res["solver_time_s"] = round(res["solver_time_s"], 3)
     return res
 
 
